@@ -160,8 +160,13 @@ package mcp
 //@   ensures [C20:nil_means_replaced_with_exactly_data] result == nil ==> renames == old(renames) + 1
 //@   ensures [C20:target_never_written_directly] directWrites == old(directWrites)
 
+//@ spec
+//@ ghost var mcpRollbacks int
+//@ ghost var mcpHealthChecks int
+//@ ghost var mcpHealthErr error
 //@ func rollbackConfigFile
-//@   modifies tmpFile, tmpWritten, tmpSynced, tmpClosed, tmpRemoved, renames, renamedFrom, renamedTo, renamedContent, dirSynced
+//@   sets mcpRollbacks := old(mcpRollbacks) + 1
+//@   modifies mcpRollbacks, tmpFile, tmpWritten, tmpSynced, tmpClosed, tmpRemoved, renames, renamedFrom, renamedTo, renamedContent, dirSynced
 //@   calls os.Remove requires [C20:rollback_removes_only_the_given_path] arg0 == p && !existed
 //@   ensures [C20:rollback_writes_only_previous_onto_p] renames == old(renames) || (existed && renames == old(renames) + 1 && renamedTo == trim(p) && renamedContent == previous)
 
@@ -175,8 +180,21 @@ package mcp
 //@   ensures prevContent == result0 && prevExisted == result1 && prevPath == p
 //@ func parseReloadTimeout
 //@   trusted
-//@ func waitForAdminHealth
+//@ func adminHealthURL
 //@   trusted
+//@ func loadAdminHealthToken
+//@   trusted
+//@ func minDuration
+//@   trusted
+// C18: a config write "with reload" is reported as applied (and not rolled back) only when the admin API answered the
+// health probe, sent with the candidate configuration's admin token, with 200: a 401/403 means the running instance
+// still holds the old configuration
+//@ func waitForAdminHealth
+//@   modifies sends, lastRespCode, lastDoErr, clockNow, mcpHealthChecks, mcpHealthErr, maps(map[string][]string)
+//@   sets mcpHealthChecks := old(mcpHealthChecks) + 1
+//@   sets mcpHealthErr := result1
+//@   loop 1 invariant [no_verdict_yet] sends >= old(sends)
+//@   ensures [C18:a_reload_is_verified_only_by_a_200_answer_to_the_probe] result1 == nil ==> sends > old(sends) && lastDoErr == nil && lastRespCode == 200
 //@ func validateAllowedKeys
 //@   trusted
 
@@ -187,6 +205,7 @@ package mcp
 //@   calls writeFileAtomic requires [C20:writes_only_the_configured_path_with_parsed_and_compiled_content] arg0 == trim(s.ConfigPath) && arg0 != "" && compiledOKContent == arg1 && lastParsed == arg1
 //@   calls rollbackConfigFile requires [C20:rollback_only_the_configured_path_to_its_previous_content] arg0 == trim(s.ConfigPath) && arg0 != "" && prevPath == arg0 && arg1 == prevExisted && arg2 == prevContent
 //@   ensures [C20:at_most_forward_and_rollback_write] renames >= old(renames) && renames <= old(renames) + 2
+//@   ensures [C18:a_written_config_whose_reload_was_not_verified_is_rolled_back] mcpHealthChecks <= old(mcpHealthChecks) + 1 && (mcpHealthChecks == old(mcpHealthChecks) + 1 && mcpHealthErr != nil ==> mcpRollbacks == old(mcpRollbacks) + 1) && (mcpHealthChecks == old(mcpHealthChecks) ==> mcpRollbacks == old(mcpRollbacks))
 
 // ---- C20: tools/list advertises exactly the tools a call would be allowed for ----
 
